@@ -248,11 +248,12 @@ func (t *Target) WaitUntilHealthy(timeout time.Duration) bool {
 
 func (t *Target) HealthCheckCompleted(success bool) {
 	simYield("health.completed", t)
-	previousState := t.state
-	newState := t.state
+	var previousState, newState TargetState
 	becameHealthy := false
 
 	t.withInflightLock(func() {
+		previousState = t.state
+
 		switch success {
 		case true:
 			switch t.state {
